@@ -974,6 +974,18 @@ def run(ctx):
     except _absint.Unknown as u:
         r6.viol("R6:undecided", "the per-locale generators cannot be interpreted on the current code (%s): not decided on this tree (fail closed)" % str(u)[:300])
     rules.append(r6)
+    # `for the locale being rendered`: a t_format! view re-reads the context's locale each time it renders (rules/reactmacros.py)
+    from rules import reactmacros
+    r7 = _Rule("C18.R7", "t_format!: the locale handed to the formatter is read when the value is rendered",
+               "`the output equals ICU4X formatting ... for the locale being rendered`: the view flavour is a closure; reading the locale when the closure "
+               "is built formats for the locale of creation after the user switched", floor=9)
+    try:
+        reactmacros.check(ctx, r7, "R7")
+    except _absint.Unknown as u:
+        r7.viol("R7:undecided", "the generators cannot be interpreted on the current code (%s): not decided on this tree (fail closed)" % str(u)[:300])
+    r7.instances = [i for i in r7.instances if "t_format" in i["site"]]
+    r7.violations = [v for v in r7.violations if "t_format" in v.key or "undecided" in v.key]
+    rules.append(r7)
     if ctx.tier == "thorough":
         # the same MIR rules on the client-less build (no ssr / dynamic_load): other cfg branches of the same functions
         for cfg in ("plain", "hydrate"):
